@@ -123,7 +123,21 @@ def run_call(call, scratch):
                         kw[k] = call[k]
                 if fn == "convert":
                     sink = call.get("sink", "return")
-                    if sink == "file":
+                    if sink == "file" and call.get("bad_dir"):
+                        # output file in a directory that does not exist: documented fall-back to stdout; the host's sys.stdout must
+                        # stay usable afterwards (observed on a stand-in object so that the harness' own capture is not disturbed)
+                        import io
+                        stand_in = io.StringIO()
+                        real_stdout = sys.stdout
+                        sys.stdout = stand_in
+                        try:
+                            r = glyles.convert(output_file=os.path.join(scratch, "no_such_dir_%d" % call.get("idx", 0), "out.txt"), **kw)
+                        finally:
+                            sys.stdout = real_stdout
+                        obs["stdout_closed"] = bool(stand_in.closed)
+                        obs["fallback_stdout"] = None if stand_in.closed else stand_in.getvalue()
+                        obs["result"] = encode_value(r)
+                    elif sink == "file":
                         out = os.path.join(scratch, "out_%d.txt" % call.get("idx", 0))
                         if os.path.exists(out):
                             os.remove(out)
@@ -142,6 +156,17 @@ def run_call(call, scratch):
                         obs["result"] = None if r is None else [[encode_value(a), b] for a, b in r]
                 else:
                     g = glyles.convert_generator(**kw)
+                    if call.get("unstarted"):
+                        # the caller never advances the generator: dropped, closed before the first next(), or sliced to nothing
+                        if call["unstarted"] == "close":
+                            g.close()
+                        elif call["unstarted"] == "islice0":
+                            import itertools
+                            list(itertools.islice(g, 0))
+                        del g
+                        import gc
+                        gc.collect()
+                        g = iter(())
                     take = call.get("take")
                     out = []
                     for i, (a, b) in enumerate(g):
